@@ -399,7 +399,7 @@ def r5(ctx: Ctx) -> None:
     if len(fns) < 15:
         raise AnalysisError(f"commit path has only {len(fns)} functions - call graph broken")
     for f in fns:
-        if not ctx.prog.is_known(f):
+        if ctx.prog.is_transparent(f):
             continue  # a helper introduced later: its handlers are judged where it is inlined (in its callers)
         for hn in handler_nodes(ctx, f):
             if hn.id not in ctx.cfg(f).reachable():
